@@ -124,17 +124,24 @@ func (c *wsConnection) removeSub(id string) {
 
 	if isEmpty {
 		if c.idleTimeout > 0 {
-			time.AfterFunc(c.idleTimeout, func() {
-				c.subsMu.RLock()
-				stillEmpty := len(c.subs) == 0
-				c.subsMu.RUnlock()
-				if stillEmpty {
-					c.closeConn()
-				}
-			})
+			time.AfterFunc(c.idleTimeout, c.closeIfEmpty)
 		} else {
-			c.closeConn()
+			c.closeIfEmpty()
 		}
+	}
+}
+
+// closeIfEmpty closes the connection unless it has subscriptions. The test and
+// the closed flag share one subsMu critical section with the registration in
+// subscribe, so a subscription is either registered before the test (and the
+// connection stays open) or is refused with ErrConnectionClosed.
+func (c *wsConnection) closeIfEmpty() {
+	c.subsMu.Lock()
+	closing := len(c.subs) == 0 && c.closed.CompareAndSwap(false, true)
+	c.subsMu.Unlock()
+
+	if closing {
+		c.teardown(common.ErrConnectionClosed)
 	}
 }
 
@@ -213,6 +220,11 @@ func (c *wsConnection) shutdown(err error) {
 		return
 	}
 
+	c.teardown(err)
+}
+
+// teardown runs once, on behalf of whoever set the closed flag.
+func (c *wsConnection) teardown(err error) {
 	c.log.Debug("wsConnection.shutdown",
 		abstractlogger.Error(err),
 	)
